@@ -547,9 +547,13 @@ int run_pat(Args const& a)
     }
     uint32_t const ncalls = static_cast<uint32_t>(r.range(1, 6));
     int64_t ts = static_cast<int64_t>(r.range(1000000000ull, 4000000000ull)) * 1000000000ll;
+    // a user clock may start at the epoch (simulated / replayed time): 0 is a timestamp like any other, also as the
+    // very first one a formatter sees; and consecutive statements may carry the same timestamp
+    bool const from_epoch = r.chance(1, 10) && tspat.find("%s") == std::string::npos; // (%s is only defined for ten-digit epochs, C13)
+    if (from_epoch) { ts = 0; g_stats.add("pat_cases_starting_at_timestamp_zero"); }
     for (uint32_t k = 0; k < ncalls; ++k)
     {
-      ts += static_cast<int64_t>(r.below(5000000000ull));
+      if (!(from_epoch && k == 0) && !r.chance(1, 6)) ts += static_cast<int64_t>(r.below(5000000000ull));
       // source metadata: "dir/sub/file.cpp:123", no directory, deep paths, odd characters
       std::string dir;
       uint32_t depth = static_cast<uint32_t>(r.below(5));
